@@ -49,7 +49,7 @@ impl BlockEncoder {
             nb_a_large: 0,
             nb_blocks: 0,
             blocks: Vec::new(),
-            block_multiplex_windows,
+            block_multiplex_windows: block_multiplex_windows.max(1),
             block_multiplex_index: 0,
             read_end: false,
             source_size_transferred: 0,
